@@ -471,11 +471,11 @@ _quoted_name = re.compile(r'"(\w+)"')
 _WARN_RAG = re.compile(r'"(\w+)" table is not consistent: e\.g\. record (\d+) -> (\d+) fields, record (\d+) -> (\d+) fields')
 
 
-def run_case_py(mods, case, query_text, endless_cap=0):
+def run_case_py(mods, case, query_text, endless_cap=0, shared_A=None):
     """Run one case through rbql.query with recording iterator / writer. Returns the observation dict."""
     rbql, eng, rcsv, cu = mods
     RecIterator, RecWriter, Registry = make_recorders(eng)
-    A = table_py(case['A'])
+    A = table_py(case['A']) if shared_A is None else shared_A       # shared_A: the very list object an earlier query of a history ran over
     B = table_py(case['B'])
     snapA = copy.deepcopy(A)
     snapB = copy.deepcopy(B)
